@@ -23,7 +23,7 @@ Case == /\ Rec[l].ev = "case"
         \* nesting (the program can be read back from it), and a clone serialises identically
         /\ Rec[l].ron_ok = 1 /\ Rec[l].clone_same = 1 /\ Rec[l].skel = Shown(Rec[l].prog)
         /\ prog' = Rec[l].prog /\ script' = Rec[l].script /\ fault' = Rec[l].fault
-        /\ full' = RunProgX(Rec[l].prog, Rec[l].script, Rec[l].fault, Rec[l].rules, Rec[l].rootit)
+        /\ full' = RunProgX(Rec[l].prog, Rec[l].script, Rec[l].fault, Expand(Rec[l].rules), Rec[l].rootit)
         /\ pos' = 0
 Event == /\ Rec[l].ev = "e"
          /\ pos < Len(full.out)
